@@ -9,6 +9,12 @@ import DateutilVerif.Proofs.ParserFuzzy
 import DateutilVerif.Proofs.ParserFuzzySyn
 import DateutilVerif.Proofs.Calendar
 import DateutilVerif.Proofs.Time
+import DateutilVerif.Proofs.RenderGenA
+import DateutilVerif.Proofs.RenderGenB
+import DateutilVerif.Proofs.RenderGenC
+import DateutilVerif.Proofs.RenderGenD
+import DateutilVerif.Proofs.RenderGenE
+import DateutilVerif.Proofs.RenderGenF
 
 namespace C15
 open PM Py
@@ -207,10 +213,10 @@ theorem tz_row_tzinfos_callable_offset (n : Option Token) (k : Int) (hk : offset
     buildTzinfo (.callable [] .echoOffset) n (some k) = .ok (.fixed n k) := by
   unfold buildTzinfo; simp [lookupKey, fixedZone, hk, bind, Except.bind]
 
-/-- row 2: otherwise a name of the process-local zone (`time.tzname`) gives `tzlocal()` -/
+/-- row 2: otherwise a name of the process-local zone (`time.tzname`) gives the process-zone row, which carries the parsed offset -/
 theorem tz_row_local (tznames : List Token) (tzi : TzInfos) (res : Res) (n : Token)
     (h1 : tzi.applies res.tzname = false) (hn : res.tzname = some n) (hne : n ≠ []) (hmem : n ∈ tznames) :
-    buildTzaware tznames tzi res = .ok (.localZone n) := by
+    buildTzaware tznames tzi res = .ok (.localZone n res.tzoffset) := by
   unfold buildTzaware
   have : nameTruthy (some n) = true := by cases n <;> simp_all [nameTruthy]
   rw [hn] at h1
@@ -224,14 +230,57 @@ theorem assign_fold_spec (n0 n1 name : Option Token) :
 
 /-- row 2, the UTC replacement: `GMT`/`UTC`/`Z` parsed while the local zone currently calls itself
     something else (winter GMT parsed in the UK during BST) is `tz.UTC`, not the local zone -/
-theorem local_utc_replacement (info : Info) (n0 n1 : Option Token) (name : Token)
+theorem local_utc_replacement (info : Info) (n0 n1 : Option Token) (o0 o1 : Int) (name : Token) (off : Option Int)
     (h0 : n0 ≠ some name) (h1 : n1 ≠ some name) (hu : name ∈ info.UTCZONE) :
-    localFinal info n0 n1 name = .utc := by
+    localFinal info n0 n1 o0 o1 name off = .utc := by
   unfold localFinal assignFold; simp [h0, h1, hu]
 
-theorem local_stays_local (info : Info) (n0 n1 : Option Token) (name : Token) (h0 : n0 = some name) :
-    localFinal info n0 n1 name = .localFold 0 := by
-  unfold localFinal assignFold; simp [h0]
+/-- row 2, the documented local-zone-name rule: the name the local zone currently uses, at the offset the local zone has —
+    a non-zero-offset name (`EST`, `BST`: `res.tzoffset` is None) always, a UTC designator when the zone IS at offset zero
+    (`GMT` under Europe/London in winter, anything under `TZ=UTC`) — stays `tzlocal()` -/
+theorem local_stays_local (info : Info) (n0 n1 : Option Token) (o0 o1 : Int) (name : Token) (off : Option Int)
+    (h0 : n0 = some name) (hz : off = some 0 → o0 = 0) :
+    localFinal info n0 n1 o0 o1 name off = .localFold 0 := by
+  unfold localFinal assignFold
+  by_cases ho : off = some 0
+  · simp [h0, ho, hz ho]
+  · simp [h0, ho]
+
+/-- row 2, **a zone merely CALLED UTC / GMT** (repair of D-C15-local-zone-named-utc): the text means offset zero
+    (`Z`, `UTC`, `GMT`, `+0000`, `-00:00`, `GMT+0`: `res.tzoffset == 0`) but `tzlocal()` is NOT at offset zero for that wall
+    time (at the fold `_assign_tzname` picked) ⇒ `tz.UTC`, whatever the zone calls itself -/
+theorem local_zero_offset_is_utc (info : Info) (n0 n1 : Option Token) (o0 o1 : Int) (name : Token)
+    (hoff : (if assignFold n0 n1 (some name) = 1 then o1 else o0) ≠ 0) :
+    localFinal info n0 n1 o0 o1 name (some 0) = .utc := by
+  unfold localFinal
+  simp only [true_and]
+  generalize assignFold n0 n1 (some name) = f at hoff ⊢
+  by_cases hc : (if f = 1 then n1 else n0) ≠ some name ∧ info.UTCZONE.contains name = true
+  · rw [if_pos hc]
+  · rw [if_neg hc, if_pos hoff]
+
+/-- row 2, **a UTC designator / zero offset is at offset zero** — for every local zone, whatever it is called and wherever it
+    is: the result of the process-zone row has UTC offset 0 at its wall time (no hypothesis on names or offsets) -/
+theorem local_zero_offset_at_zero (info : Info) (n0 n1 : Option Token) (o0 o1 : Int) (name : Token) :
+    (localFinal info n0 n1 o0 o1 name (some 0)).offset o0 o1 = 0 := by
+  unfold localFinal
+  simp only [true_and]
+  generalize assignFold n0 n1 (some name) = f
+  by_cases hc : (if f = 1 then n1 else n0) ≠ some name ∧ info.UTCZONE.contains name = true
+  · rw [if_pos hc]; rfl
+  · rw [if_neg hc]
+    by_cases h : (if f = 1 then o1 else o0) ≠ 0
+    · rw [if_pos h]; rfl
+    · rw [if_neg h]; simp only [LocalFinal.offset]; exact Decidable.of_not_not h
+
+/-- `TZ=UTC+3` (a zone called UTC, three hours west), `TZ=GMT-2`, and `XXX0UTC,M3.5.0,M10.5.0` in summer: all `tz.UTC`;
+    Europe/London in winter keeps `tzlocal()` for `GMT` -/
+example : localFinal (Info.default false false 2024 2000) (some "UTC".toList) (some "UTC".toList) (-10800) (-10800) "UTC".toList (some 0) = .utc
+    ∧ localFinal (Info.default false false 2024 2000) (some "GMT".toList) (some "GMT".toList) 7200 7200 "GMT".toList (some 0) = .utc
+    ∧ localFinal (Info.default false false 2024 2000) (some "UTC".toList) (some "UTC".toList) 3600 3600 "UTC".toList (some 0) = .utc
+    ∧ localFinal (Info.default false false 2024 2000) (some "GMT".toList) (some "GMT".toList) 0 0 "GMT".toList (some 0) = .localFold 0
+    ∧ localFinal (Info.default false false 2024 2000) (some "EST".toList) (some "EST".toList) (-18000) (-18000) "EST".toList none = .localFold 0 := by
+  decide
 
 /-- row 3: otherwise offset zero (`Z`, `UTC`, `+00:00` after `validate`) is `tz.UTC` -/
 theorem tz_row_utc (tznames : List Token) (tzi : TzInfos) (res : Res)
@@ -335,6 +384,103 @@ theorem ignoretz_same_wall (cls : Char → CClass) (info : Info) (o : Opts) (tzn
             injection h with h
             subst h
             rfl
+
+/-! ### an AWARE `default=`: which results keep its tzinfo (repair of D-C15-aware-default-kept) -/
+
+/-- `parseResultA` (any default) read for a naive default is `parseResult`: the two models differ only in separating
+    "tzinfo None" from "the default's tzinfo" -/
+theorem parseResultA_forget (cls : Char → CClass) (info : Info) (o : Opts) (tznames : List Token) (tzi : TzInfos)
+    (dflt : DT) (l : List Token) :
+    (parseResultA cls info o tznames tzi dflt l).map (fun r => ({ dt := r.dt, tz := r.tz.forget, tokens := r.tokens } : Result)) =
+      parseResult cls info o tznames tzi dflt l := by
+  unfold parseResultA parseResult finalTz
+  cases hpt : parseTokens cls info o l with
+  | error e => simp [bind, Except.bind, Except.map]
+  | ok ro =>
+    simp only [bind, Except.bind]
+    cases ro with
+    | none => simp [Except.map, throw, throwThe, MonadExceptOf.throw]
+    | some p =>
+      obtain ⟨res, sk⟩ := p
+      dsimp only
+      split
+      · simp [Except.map, throw, throwThe, MonadExceptOf.throw]
+      · cases hb : buildNaive res dflt with
+        | error e => cases e <;> simp [Except.map, throw, throwThe, MonadExceptOf.throw, pure, Except.pure]
+        | ok naive =>
+          simp only [pure, Except.pure]
+          by_cases hig : o.ignoretz = true
+          · simp [hig, Except.map, FinalTz.forget]
+          · simp only [hig, if_false, Bool.false_eq_true]
+            cases hz : buildTzaware tznames tzi res with
+            | error e => cases e <;> simp [Except.map, throw, throwThe, MonadExceptOf.throw]
+            | ok z => cases z <;> simp [Except.map, FinalTz.forget]
+
+/-- **`ignoretz=True` ⇒ a naive datetime, for EVERY default** (aware or not): the tzinfo of the result is None — never the
+    default's (`FinalTz.ofDefault`), never a zone — and the wall time and tokens are those of the call without `ignoretz` -/
+theorem ignoretz_naive_every_default (cls : Char → CClass) (info : Info) (o : Opts) (tznames : List Token) (tzi : TzInfos)
+    (dflt : DT) (s : List Char) (r : ResultA) (hig : o.ignoretz = true)
+    (h : parseA cls info o tznames tzi dflt s = .ok r) : r.tz = .none := by
+  unfold parseA parseResultA finalTz at h
+  cases hpt : parseTokens cls info o (lex cls s) with
+  | error e => simp [hpt, bind, Except.bind] at h
+  | ok ro =>
+    simp only [hpt, bind, Except.bind] at h
+    cases ro with
+    | none => simp [throw, throwThe, MonadExceptOf.throw] at h
+    | some p =>
+      obtain ⟨res, sk⟩ := p
+      dsimp only at h
+      split at h
+      · simp [throw, throwThe, MonadExceptOf.throw] at h
+      · cases hb : buildNaive res dflt with
+        | error e => cases e <;> simp [hb, throw, throwThe, MonadExceptOf.throw] at h
+        | ok naive =>
+          simp only [hb, pure, Except.pure, hig, if_true] at h
+          injection h with h
+          subst h
+          rfl
+
+/-- the last lines of `parse`, row by row, for every default.  Row 5 (no zone information in the text): the default's
+    tzinfo is KEPT … -/
+theorem final_row_no_zone_keeps_default (o : Opts) (tznames : List Token) (tzi : TzInfos) (res : Res) (hig : o.ignoretz = false)
+    (h1 : tzi.applies res.tzname = false) (h3 : res.tzoffset = none) (h4 : nameTruthy res.tzname = false) :
+    finalTz o tznames tzi res = .ok .ofDefault := by
+  unfold finalTz; rw [tz_row_naive tznames tzi res h1 h3 h4]; simp [hig]
+
+/-- … row 6, **an unknown abbreviation ⇒ naive + UnknownTimezoneWarning, for EVERY default** (the tzinfo is None, not the
+    default's) … -/
+theorem unknown_abbreviation_naive_every_default (o : Opts) (tznames : List Token) (tzi : TzInfos) (res : Res) (n : Token)
+    (hig : o.ignoretz = false) (h1 : tzi.applies res.tzname = false) (hn : res.tzname = some n) (hne : n ≠ [])
+    (hmem : n ∉ tznames) (h3 : res.tzoffset = none) :
+    finalTz o tznames tzi res = .ok (.noneWarn n) := by
+  unfold finalTz; rw [tz_row_unknown tznames tzi res n h1 hn hne hmem h3]; simp [hig]
+
+/-- … `ignoretz` ⇒ None before anything else is looked at (tzinfos is never consulted, so it cannot raise) … -/
+theorem final_ignoretz (o : Opts) (tznames : List Token) (tzi : TzInfos) (res : Res) (hig : o.ignoretz = true) :
+    finalTz o tznames tzi res = .ok .none := by
+  unfold finalTz; simp [hig]
+
+/-- … and the default's tzinfo survives ONLY through row 5: whenever the result carries it, the text had no zone name and
+    no offset, `ignoretz` was off and `tzinfos` did not apply -/
+theorem default_kept_only_without_zone (o : Opts) (tznames : List Token) (tzi : TzInfos) (res : Res)
+    (h : finalTz o tznames tzi res = .ok .ofDefault) :
+    o.ignoretz = false ∧ buildTzaware tznames tzi res = .ok .naive := by
+  unfold finalTz at h
+  by_cases hig : o.ignoretz = true
+  · simp [hig] at h
+  · refine ⟨by simpa using hig, ?_⟩
+    simp only [hig, if_false, Bool.false_eq_true] at h
+    cases hz : buildTzaware tznames tzi res with
+    | error e => cases e <;> simp [hz] at h
+    | ok z => cases z <;> simp_all
+
+/-- the witnesses of D-C15-aware-default-kept on the model: `10:00 +0300` with `ignoretz`, `10:00 FOO`, and `10:00` alone -/
+example : (parseA asciiCls (Info.default false false 2024 2000) { ignoretz := true } [] .absent ⟨2003, 9, 25, 0, 0, 0, 0⟩ "10:00 +0300".toList).map (·.tz) = .ok .none
+    ∧ (parseA asciiCls (Info.default false false 2024 2000) {} [] .absent ⟨2003, 9, 25, 0, 0, 0, 0⟩ "10:00 FOO".toList).map (·.tz) = .ok (.noneWarn "FOO".toList)
+    ∧ (parseA asciiCls (Info.default false false 2024 2000) {} [] .absent ⟨2003, 9, 25, 0, 0, 0, 0⟩ "10:00".toList).map (·.tz) = .ok .ofDefault
+    ∧ (parseA asciiCls (Info.default false false 2024 2000) {} [] .absent ⟨2003, 9, 25, 0, 0, 0, 0⟩ "10:00 +0300".toList).map (·.tz) = .ok (.zone (.fixed none 10800)) := by
+  decide +kernel
 
 /-! ### fuzzy -/
 
@@ -508,5 +654,264 @@ theorem fuzzy_extends_strict_one_marker_partial (cls : Char → CClass) (df yf :
 /-- the count is 1 for an ordinary 12-hour text and 2 at the D-C15 witness -/
 example : ampmCount (Info.default false false 2024 2000) (lex asciiCls "Sep 25 2003 10:30 pm".toList) = 1 := by decide +kernel
 example : ampmCount (Info.default false false 2024 2000) (lex asciiCls "10:30 am pm".toList) = 2 := by decide +kernel
+
+/-! ### a sentence containing one date
+
+  The class of sentences is DECIDABLE: any number of filler words (`PM.fillerWord`: ASCII letters; not `inf`/`nan`/`infinity`; in no
+  stock parserinfo table; not shaped like a zone abbreviation), each followed by a space; one rendering from the C02 schema templates
+  (`PT.sentenceTemplates`: 21 ids — the 17 schema templates with a time of day and the ISO forms `YYYY-MM-DD[T ]HH:MM[:SS]` —, every valid datetime); any number of filler words, each after a space.  `PM.SentenceAnswer`
+  (Proofs/RenderSentence.lean) says: `parse(…, fuzzy=True)` and `parse(…, fuzzy_with_tokens=True)` return the datetime the rendering
+  alone parses to (naive), and the token tuple is `_recombine_skipped` of a list of skipped indices that contains every token of the
+  words in front and behind.  Proof: the scan over ANY number of filler tokens is an induction (`PM.inert_seg`); the scan over the
+  rendering at ANY position of the token list is the symbolic run of C02 with a symbolic prefix (`PM.runp_*`). -/
+
+open PT in
+/-- what `SentenceAnswer` says about the TEXT that comes back: the tokens' characters, read one after the other, are the skipped
+    tokens in ascending token index, nothing lost or added — and every filler token is among them -/
+theorem sentence_tokens_text (cls : Char → CClass) (info : Info) (o : Opts) (tznames : List Token) (tzi : TzInfos) (dflt : DT)
+    (text : List Char) (dt : DT) (a b : Nat) (h : SentenceAnswer cls info o tznames tzi dflt text dt a b) :
+    ∃ (toks : List Token) (sk : List Nat),
+      parse cls info o tznames tzi dflt text = .ok { dt := dt, tz := .naive, tokens := if o.fuzzyWithTokens then some toks else none } ∧
+      toks.flatten = ((sk.mergeSort (· ≤ ·)).filterMap ((lex cls text)[·]?)).flatten ∧
+      (sk.mergeSort (· ≤ ·)).Pairwise (· ≤ ·) ∧
+      (∀ i, (i < a ∨ (b ≤ i ∧ i < (lex cls text).length)) → i ∈ sk) := by
+  obtain ⟨toks, sk, hre, hall, hp⟩ := h
+  have := fuzzy_tokens_in_order (lex cls text) sk toks hre
+  exact ⟨toks, sk, hp, this.1, this.2, hall⟩
+
+/-- non-vacuity: `Today is 2003-09-25 10h49m41s sharp` -/
+example : fillerWord "Today".toList = true ∧ fillerWord "is".toList = true ∧ fillerWord "sharp".toList = true ∧
+    fillerWord "at".toList = true ∧ fillerWord "EST".toList = false ∧ fillerWord "nan".toList = false ∧ fillerWord "Monday".toList = false := by
+  decide +kernel
+example : parse asciiCls (Info.default false false 2024 2000) { fuzzy := true } [] .absent ⟨2001, 1, 1, 0, 0, 0, 0⟩
+    (leadChars ["Today".toList, "is".toList] ++ PT.str_hms_letters ⟨2003, 9, 25, 10, 49, 41, 0⟩ (fillerChars ["sharp".toList])) =
+      .ok ⟨⟨2003, 9, 25, 10, 49, 41, 0⟩, .naive, none⟩ := by decide +kernel
+example : leadChars ["Today".toList, "is".toList] ++ PT.str_hms_letters ⟨2003, 9, 25, 10, 49, 41, 0⟩ (fillerChars ["sharp".toList]) =
+    "Today is 2003-09-25 10h49m41s sharp".toList := by decide +kernel
+
+-- BEGIN GENERATED SENTENCE INDEX (tools_local/gen_templates.py)
+/-- the sentence theorem a template id stands for (`False` for an id without one) -/
+def SentenceThm (id : String) : Prop :=
+  if id = "us_slash" then
+    (∀ (cls : Char → CClass) [AsciiOK cls] (yf : Bool) (year century : Int) (o : Opts) (tznames : List Token) (tzi : TzInfos)
+      (hf : (o.fuzzy || o.fuzzyWithTokens) = true) (htz1 : tzi.applies none = false) (htz2 : tzi.applies (some ['U', 'T', 'C']) = false)
+      (hdf : o.dayfirst.getD false = false) (hyf : o.yearfirst.getD yf = false) (t dflt : DT) (ht : t.Valid) (hdv : dflt.Valid) (lead ws : List Token) (hlead : ∀ w ∈ lead, fillerWord w = true) (hws : ∀ w ∈ ws, fillerWord w = true),
+      SentenceAnswer cls (Info.default false yf year century) o tznames tzi dflt (leadChars lead ++ PT.str_us_slash t (fillerChars ws)) ({ t with us := 0 })
+        (leadToks lead).length ((leadToks lead).length + 11))
+  else if id = "eu_slash" then
+    (∀ (cls : Char → CClass) [AsciiOK cls] (yf : Bool) (year century : Int) (o : Opts) (tznames : List Token) (tzi : TzInfos)
+      (hf : (o.fuzzy || o.fuzzyWithTokens) = true) (htz1 : tzi.applies none = false) (htz2 : tzi.applies (some ['U', 'T', 'C']) = false)
+      (hdf : o.dayfirst.getD false = true) (hyf : o.yearfirst.getD yf = false) (t dflt : DT) (ht : t.Valid) (hdv : dflt.Valid) (lead ws : List Token) (hlead : ∀ w ∈ lead, fillerWord w = true) (hws : ∀ w ∈ ws, fillerWord w = true),
+      SentenceAnswer cls (Info.default false yf year century) o tznames tzi dflt (leadChars lead ++ PT.str_eu_slash t (fillerChars ws)) ({ t with us := 0 })
+        (leadToks lead).length ((leadToks lead).length + 11))
+  else if id = "yf_slash" then
+    (∀ (cls : Char → CClass) [AsciiOK cls] (yf : Bool) (year century : Int) (o : Opts) (tznames : List Token) (tzi : TzInfos)
+      (hf : (o.fuzzy || o.fuzzyWithTokens) = true) (htz1 : tzi.applies none = false) (htz2 : tzi.applies (some ['U', 'T', 'C']) = false)
+      (hdf : o.dayfirst.getD false = false) (t dflt : DT) (ht : t.Valid) (hdv : dflt.Valid) (lead ws : List Token) (hlead : ∀ w ∈ lead, fillerWord w = true) (hws : ∀ w ∈ ws, fillerWord w = true),
+      SentenceAnswer cls (Info.default false yf year century) o tznames tzi dflt (leadChars lead ++ PT.str_yf_slash t (fillerChars ws)) ({ t with us := 0 })
+        (leadToks lead).length ((leadToks lead).length + 11))
+  else if id = "eu_yy" then
+    (∀ (cls : Char → CClass) [AsciiOK cls] (yf : Bool) (year century : Int) (o : Opts) (tznames : List Token) (tzi : TzInfos)
+      (hf : (o.fuzzy || o.fuzzyWithTokens) = true) (htz1 : tzi.applies none = false) (htz2 : tzi.applies (some ['U', 'T', 'C']) = false)
+      (hdf : o.dayfirst.getD false = true) (hyf : o.yearfirst.getD yf = false) (t dflt : DT) (ht : t.Valid) (hdv : dflt.Valid) (hwin : Gen.convertyear ⟨century, year⟩ (t.y % 100) false = .ok t.y) (lead ws : List Token) (hlead : ∀ w ∈ lead, fillerWord w = true) (hws : ∀ w ∈ ws, fillerWord w = true),
+      SentenceAnswer cls (Info.default false yf year century) o tznames tzi dflt (leadChars lead ++ PT.str_eu_yy t (fillerChars ws)) ({ t with ss := dflt.ss, us := dflt.us })
+        (leadToks lead).length ((leadToks lead).length + 9))
+  else if id = "hms_letters" then
+    (∀ (cls : Char → CClass) [AsciiOK cls] (yf : Bool) (year century : Int) (o : Opts) (tznames : List Token) (tzi : TzInfos)
+      (hf : (o.fuzzy || o.fuzzyWithTokens) = true) (htz1 : tzi.applies none = false) (htz2 : tzi.applies (some ['U', 'T', 'C']) = false)
+      (hdf : o.dayfirst.getD false = false) (t dflt : DT) (ht : t.Valid) (hdv : dflt.Valid) (lead ws : List Token) (hlead : ∀ w ∈ lead, fillerWord w = true) (hws : ∀ w ∈ ws, fillerWord w = true),
+      SentenceAnswer cls (Info.default false yf year century) o tznames tzi dflt (leadChars lead ++ PT.str_hms_letters t (fillerChars ws)) ({ t with us := 0 })
+        (leadToks lead).length ((leadToks lead).length + 12))
+  else if id = "hm_letters" then
+    (∀ (cls : Char → CClass) [AsciiOK cls] (yf : Bool) (year century : Int) (o : Opts) (tznames : List Token) (tzi : TzInfos)
+      (hf : (o.fuzzy || o.fuzzyWithTokens) = true) (htz1 : tzi.applies none = false) (htz2 : tzi.applies (some ['U', 'T', 'C']) = false)
+      (hdf : o.dayfirst.getD false = false) (t dflt : DT) (ht : t.Valid) (hdv : dflt.Valid) (lead ws : List Token) (hlead : ∀ w ∈ lead, fillerWord w = true) (hws : ∀ w ∈ ws, fillerWord w = true),
+      SentenceAnswer cls (Info.default false yf year century) o tznames tzi dflt (leadChars lead ++ PT.str_hm_letters t (fillerChars ws)) ({ t with ss := dflt.ss, us := dflt.us })
+        (leadToks lead).length ((leadToks lead).length + 10))
+  else if id = "ampm_short" then
+    (∀ (cls : Char → CClass) [AsciiOK cls] (yf : Bool) (year century : Int) (o : Opts) (tznames : List Token) (tzi : TzInfos)
+      (hf : (o.fuzzy || o.fuzzyWithTokens) = true) (htz1 : tzi.applies none = false) (htz2 : tzi.applies (some ['U', 'T', 'C']) = false)
+      (hdf : o.dayfirst.getD false = false) (t dflt : DT) (ht : t.Valid) (hdv : dflt.Valid) (lead ws : List Token) (hlead : ∀ w ∈ lead, fillerWord w = true) (hws : ∀ w ∈ ws, fillerWord w = true),
+      SentenceAnswer cls (Info.default false yf year century) o tznames tzi dflt (leadChars lead ++ PT.str_ampm_short t (fillerChars ws)) ({ t with ss := dflt.ss, us := dflt.us })
+        (leadToks lead).length ((leadToks lead).length + 10))
+  else if id = "ampm_hour" then
+    (∀ (cls : Char → CClass) [AsciiOK cls] (yf : Bool) (year century : Int) (o : Opts) (tznames : List Token) (tzi : TzInfos)
+      (hf : (o.fuzzy || o.fuzzyWithTokens) = true) (htz1 : tzi.applies none = false) (htz2 : tzi.applies (some ['U', 'T', 'C']) = false)
+      (hdf : o.dayfirst.getD false = false) (t dflt : DT) (ht : t.Valid) (hdv : dflt.Valid) (lead ws : List Token) (hlead : ∀ w ∈ lead, fillerWord w = true) (hws : ∀ w ∈ ws, fillerWord w = true),
+      SentenceAnswer cls (Info.default false yf year century) o tznames tzi dflt (leadChars lead ++ PT.str_ampm_hour t (fillerChars ws)) ({ t with mm := dflt.mm, ss := dflt.ss, us := dflt.us })
+        (leadToks lead).length ((leadToks lead).length + 9))
+  else if id = "ampm_hour_tight" then
+    (∀ (cls : Char → CClass) [AsciiOK cls] (yf : Bool) (year century : Int) (o : Opts) (tznames : List Token) (tzi : TzInfos)
+      (hf : (o.fuzzy || o.fuzzyWithTokens) = true) (htz1 : tzi.applies none = false) (htz2 : tzi.applies (some ['U', 'T', 'C']) = false)
+      (hdf : o.dayfirst.getD false = false) (t dflt : DT) (ht : t.Valid) (hdv : dflt.Valid) (lead ws : List Token) (hlead : ∀ w ∈ lead, fillerWord w = true) (hws : ∀ w ∈ ws, fillerWord w = true),
+      SentenceAnswer cls (Info.default false yf year century) o tznames tzi dflt (leadChars lead ++ PT.str_ampm_hour_tight t (fillerChars ws)) ({ t with mm := dflt.mm, ss := dflt.ss, us := dflt.us })
+        (leadToks lead).length ((leadToks lead).length + 8))
+  else if id = "ampm_hms_sp" then
+    (∀ (cls : Char → CClass) [AsciiOK cls] (yf : Bool) (year century : Int) (o : Opts) (tznames : List Token) (tzi : TzInfos)
+      (hf : (o.fuzzy || o.fuzzyWithTokens) = true) (htz1 : tzi.applies none = false) (htz2 : tzi.applies (some ['U', 'T', 'C']) = false)
+      (hdf : o.dayfirst.getD false = false) (t dflt : DT) (ht : t.Valid) (hdv : dflt.Valid) (lead ws : List Token) (hlead : ∀ w ∈ lead, fillerWord w = true) (hws : ∀ w ∈ ws, fillerWord w = true),
+      SentenceAnswer cls (Info.default false yf year century) o tznames tzi dflt (leadChars lead ++ PT.str_ampm_hms_sp t (fillerChars ws)) ({ t with us := 0 })
+        (leadToks lead).length ((leadToks lead).length + 13))
+  else if id = "dd-Mon-Y_hm" then
+    (∀ (cls : Char → CClass) [AsciiOK cls] (yf : Bool) (year century : Int) (o : Opts) (tznames : List Token) (tzi : TzInfos)
+      (hf : (o.fuzzy || o.fuzzyWithTokens) = true) (htz1 : tzi.applies none = false) (htz2 : tzi.applies (some ['U', 'T', 'C']) = false)
+       (t dflt : DT) (ht : t.Valid) (hdv : dflt.Valid) (lead ws : List Token) (hlead : ∀ w ∈ lead, fillerWord w = true) (hws : ∀ w ∈ ws, fillerWord w = true),
+      SentenceAnswer cls (Info.default false yf year century) o tznames tzi dflt (leadChars lead ++ PT.str_dd_Mon_Y_hm t (fillerChars ws)) ({ t with ss := dflt.ss, us := dflt.us })
+        (leadToks lead).length ((leadToks lead).length + 9))
+  else if id = "d_Month_Y_hm" then
+    (∀ (cls : Char → CClass) [AsciiOK cls] (yf : Bool) (year century : Int) (o : Opts) (tznames : List Token) (tzi : TzInfos)
+      (hf : (o.fuzzy || o.fuzzyWithTokens) = true) (htz1 : tzi.applies none = false) (htz2 : tzi.applies (some ['U', 'T', 'C']) = false)
+      (hyf : o.yearfirst.getD yf = false) (t dflt : DT) (ht : t.Valid) (hdv : dflt.Valid) (hy : 100 ≤ t.y) (lead ws : List Token) (hlead : ∀ w ∈ lead, fillerWord w = true) (hws : ∀ w ∈ ws, fillerWord w = true),
+      SentenceAnswer cls (Info.default false yf year century) o tznames tzi dflt (leadChars lead ++ PT.str_d_Month_Y_hm t (fillerChars ws)) ({ t with ss := dflt.ss, us := dflt.us })
+        (leadToks lead).length ((leadToks lead).length + 9))
+  else if id = "Mon_d_Y_hms" then
+    (∀ (cls : Char → CClass) [AsciiOK cls] (yf : Bool) (year century : Int) (o : Opts) (tznames : List Token) (tzi : TzInfos)
+      (hf : (o.fuzzy || o.fuzzyWithTokens) = true) (htz1 : tzi.applies none = false) (htz2 : tzi.applies (some ['U', 'T', 'C']) = false)
+       (t dflt : DT) (ht : t.Valid) (hdv : dflt.Valid) (hy : 100 ≤ t.y) (lead ws : List Token) (hlead : ∀ w ∈ lead, fillerWord w = true) (hws : ∀ w ∈ ws, fillerWord w = true),
+      SentenceAnswer cls (Info.default false yf year century) o tznames tzi dflt (leadChars lead ++ PT.str_Mon_d_Y_hms t (fillerChars ws)) ({ t with us := 0 })
+        (leadToks lead).length ((leadToks lead).length + 11))
+  else if id = "compact_T_s" then
+    (∀ (cls : Char → CClass) [AsciiOK cls] (yf : Bool) (year century : Int) (o : Opts) (tznames : List Token) (tzi : TzInfos)
+      (hf : (o.fuzzy || o.fuzzyWithTokens) = true) (htz1 : tzi.applies none = false) (htz2 : tzi.applies (some ['U', 'T', 'C']) = false)
+      (hdf : o.dayfirst.getD false = false) (t dflt : DT) (ht : t.Valid) (hdv : dflt.Valid) (lead ws : List Token) (hlead : ∀ w ∈ lead, fillerWord w = true) (hws : ∀ w ∈ ws, fillerWord w = true),
+      SentenceAnswer cls (Info.default false yf year century) o tznames tzi dflt (leadChars lead ++ PT.str_compact_T_s t (fillerChars ws)) ({ t with us := 0 })
+        (leadToks lead).length ((leadToks lead).length + 3))
+  else if id = "compact_nosep_s" then
+    (∀ (cls : Char → CClass) [AsciiOK cls] (yf : Bool) (year century : Int) (o : Opts) (tznames : List Token) (tzi : TzInfos)
+      (hf : (o.fuzzy || o.fuzzyWithTokens) = true) (htz1 : tzi.applies none = false) (htz2 : tzi.applies (some ['U', 'T', 'C']) = false)
+      (hdf : o.dayfirst.getD false = false) (t dflt : DT) (ht : t.Valid) (hdv : dflt.Valid) (lead ws : List Token) (hlead : ∀ w ∈ lead, fillerWord w = true) (hws : ∀ w ∈ ws, fillerWord w = true),
+      SentenceAnswer cls (Info.default false yf year century) o tznames tzi dflt (leadChars lead ++ PT.str_compact_nosep_s t (fillerChars ws)) ({ t with us := dflt.us })
+        (leadToks lead).length ((leadToks lead).length + 1))
+  else if id = "compact_T_min" then
+    (∀ (cls : Char → CClass) [AsciiOK cls] (yf : Bool) (year century : Int) (o : Opts) (tznames : List Token) (tzi : TzInfos)
+      (hf : (o.fuzzy || o.fuzzyWithTokens) = true) (htz1 : tzi.applies none = false) (htz2 : tzi.applies (some ['U', 'T', 'C']) = false)
+      (hdf : o.dayfirst.getD false = false) (t dflt : DT) (ht : t.Valid) (hdv : dflt.Valid) (lead ws : List Token) (hlead : ∀ w ∈ lead, fillerWord w = true) (hws : ∀ w ∈ ws, fillerWord w = true),
+      SentenceAnswer cls (Info.default false yf year century) o tznames tzi dflt (leadChars lead ++ PT.str_compact_T_min t (fillerChars ws)) ({ t with ss := dflt.ss, us := dflt.us })
+        (leadToks lead).length ((leadToks lead).length + 3))
+  else if id = "compact_nosep_min" then
+    (∀ (cls : Char → CClass) [AsciiOK cls] (yf : Bool) (year century : Int) (o : Opts) (tznames : List Token) (tzi : TzInfos)
+      (hf : (o.fuzzy || o.fuzzyWithTokens) = true) (htz1 : tzi.applies none = false) (htz2 : tzi.applies (some ['U', 'T', 'C']) = false)
+      (hdf : o.dayfirst.getD false = false) (t dflt : DT) (ht : t.Valid) (hdv : dflt.Valid) (lead ws : List Token) (hlead : ∀ w ∈ lead, fillerWord w = true) (hws : ∀ w ∈ ws, fillerWord w = true),
+      SentenceAnswer cls (Info.default false yf year century) o tznames tzi dflt (leadChars lead ++ PT.str_compact_nosep_min t (fillerChars ws)) ({ t with ss := dflt.ss, us := dflt.us })
+        (leadToks lead).length ((leadToks lead).length + 1))
+  else if id = "iso_sp_s" then
+    (∀ (cls : Char → CClass) [AsciiOK cls] (yf : Bool) (year century : Int) (o : Opts) (tznames : List Token) (tzi : TzInfos)
+      (hf : (o.fuzzy || o.fuzzyWithTokens) = true) (htz1 : tzi.applies none = false) (htz2 : tzi.applies (some ['U', 'T', 'C']) = false)
+      (hdf : o.dayfirst.getD false = false) (t dflt : DT) (ht : t.Valid) (hdv : dflt.Valid) (lead ws : List Token) (hlead : ∀ w ∈ lead, fillerWord w = true) (hws : ∀ w ∈ ws, fillerWord w = true),
+      SentenceAnswer cls (Info.default false yf year century) o tznames tzi dflt (leadChars lead ++ PT.str_iso_sp_s t (fillerChars ws)) ({ t with us := 0 })
+        (leadToks lead).length ((leadToks lead).length + 11))
+  else if id = "iso_T_s" then
+    (∀ (cls : Char → CClass) [AsciiOK cls] (yf : Bool) (year century : Int) (o : Opts) (tznames : List Token) (tzi : TzInfos)
+      (hf : (o.fuzzy || o.fuzzyWithTokens) = true) (htz1 : tzi.applies none = false) (htz2 : tzi.applies (some ['U', 'T', 'C']) = false)
+      (hdf : o.dayfirst.getD false = false) (t dflt : DT) (ht : t.Valid) (hdv : dflt.Valid) (lead ws : List Token) (hlead : ∀ w ∈ lead, fillerWord w = true) (hws : ∀ w ∈ ws, fillerWord w = true),
+      SentenceAnswer cls (Info.default false yf year century) o tznames tzi dflt (leadChars lead ++ PT.str_iso_T_s t (fillerChars ws)) ({ t with us := 0 })
+        (leadToks lead).length ((leadToks lead).length + 11))
+  else if id = "iso_sp_min" then
+    (∀ (cls : Char → CClass) [AsciiOK cls] (yf : Bool) (year century : Int) (o : Opts) (tznames : List Token) (tzi : TzInfos)
+      (hf : (o.fuzzy || o.fuzzyWithTokens) = true) (htz1 : tzi.applies none = false) (htz2 : tzi.applies (some ['U', 'T', 'C']) = false)
+      (hdf : o.dayfirst.getD false = false) (t dflt : DT) (ht : t.Valid) (hdv : dflt.Valid) (lead ws : List Token) (hlead : ∀ w ∈ lead, fillerWord w = true) (hws : ∀ w ∈ ws, fillerWord w = true),
+      SentenceAnswer cls (Info.default false yf year century) o tznames tzi dflt (leadChars lead ++ PT.str_iso_sp_min t (fillerChars ws)) ({ t with ss := dflt.ss, us := dflt.us })
+        (leadToks lead).length ((leadToks lead).length + 9))
+  else if id = "iso_T_min" then
+    (∀ (cls : Char → CClass) [AsciiOK cls] (yf : Bool) (year century : Int) (o : Opts) (tznames : List Token) (tzi : TzInfos)
+      (hf : (o.fuzzy || o.fuzzyWithTokens) = true) (htz1 : tzi.applies none = false) (htz2 : tzi.applies (some ['U', 'T', 'C']) = false)
+      (hdf : o.dayfirst.getD false = false) (t dflt : DT) (ht : t.Valid) (hdv : dflt.Valid) (lead ws : List Token) (hlead : ∀ w ∈ lead, fillerWord w = true) (hws : ∀ w ∈ ws, fillerWord w = true),
+      SentenceAnswer cls (Info.default false yf year century) o tznames tzi dflt (leadChars lead ++ PT.str_iso_T_min t (fillerChars ws)) ({ t with ss := dflt.ss, us := dflt.us })
+        (leadToks lead).length ((leadToks lead).length + 9))
+  else False
+
+set_option maxHeartbeats 4000000 in
+/-- **every id in `PT.sentenceTemplates` (printed into the evidence through the `parser.sentences` op) has its sentence theorem**:
+    for any number of filler words in front of and behind the rendering, `fuzzy` / `fuzzy_with_tokens` return the datetime of the
+    rendering alone, and the token tuple is `_recombine_skipped` of indices containing every filler token. -/
+theorem sentence_templates_have_theorems : ∀ p ∈ PT.sentenceTemplates, SentenceThm p := by
+  intro p hp
+  simp only [PT.sentenceTemplates, List.mem_cons, List.mem_nil_iff, or_false] at hp
+  rcases hp with rfl | rfl | rfl | rfl | rfl | rfl | rfl | rfl | rfl | rfl | rfl | rfl | rfl | rfl | rfl | rfl | rfl | rfl | rfl | rfl | rfl
+  · show SentenceThm "us_slash"
+    simp only [SentenceThm]
+    exact fun cls _ yf year century o tznames tzi hf htz1 htz2 hdf hyf t dflt ht hdv lead ws hlead hws =>
+      sentence_us_slash cls yf year century o tznames tzi hf htz1 htz2 hdf hyf t dflt ht hdv lead ws hlead hws
+  · show SentenceThm "eu_slash"
+    simp only [SentenceThm]
+    exact fun cls _ yf year century o tznames tzi hf htz1 htz2 hdf hyf t dflt ht hdv lead ws hlead hws =>
+      sentence_eu_slash cls yf year century o tznames tzi hf htz1 htz2 hdf hyf t dflt ht hdv lead ws hlead hws
+  · show SentenceThm "yf_slash"
+    simp only [SentenceThm]
+    exact fun cls _ yf year century o tznames tzi hf htz1 htz2 hdf t dflt ht hdv lead ws hlead hws =>
+      sentence_yf_slash cls yf year century o tznames tzi hf htz1 htz2 hdf t dflt ht hdv lead ws hlead hws
+  · show SentenceThm "eu_yy"
+    simp only [SentenceThm]
+    exact fun cls _ yf year century o tznames tzi hf htz1 htz2 hdf hyf t dflt ht hdv hwin lead ws hlead hws =>
+      sentence_eu_yy cls yf year century o tznames tzi hf htz1 htz2 hdf hyf t dflt ht hdv hwin lead ws hlead hws
+  · show SentenceThm "hms_letters"
+    simp only [SentenceThm]
+    exact fun cls _ yf year century o tznames tzi hf htz1 htz2 hdf t dflt ht hdv lead ws hlead hws =>
+      sentence_hms_letters cls yf year century o tznames tzi hf htz1 htz2 hdf t dflt ht hdv lead ws hlead hws
+  · show SentenceThm "hm_letters"
+    simp only [SentenceThm]
+    exact fun cls _ yf year century o tznames tzi hf htz1 htz2 hdf t dflt ht hdv lead ws hlead hws =>
+      sentence_hm_letters cls yf year century o tznames tzi hf htz1 htz2 hdf t dflt ht hdv lead ws hlead hws
+  · show SentenceThm "ampm_short"
+    simp only [SentenceThm]
+    exact fun cls _ yf year century o tznames tzi hf htz1 htz2 hdf t dflt ht hdv lead ws hlead hws =>
+      sentence_ampm_short cls yf year century o tznames tzi hf htz1 htz2 hdf t dflt ht hdv lead ws hlead hws
+  · show SentenceThm "ampm_hour"
+    simp only [SentenceThm]
+    exact fun cls _ yf year century o tznames tzi hf htz1 htz2 hdf t dflt ht hdv lead ws hlead hws =>
+      sentence_ampm_hour cls yf year century o tznames tzi hf htz1 htz2 hdf t dflt ht hdv lead ws hlead hws
+  · show SentenceThm "ampm_hour_tight"
+    simp only [SentenceThm]
+    exact fun cls _ yf year century o tznames tzi hf htz1 htz2 hdf t dflt ht hdv lead ws hlead hws =>
+      sentence_ampm_hour_tight cls yf year century o tznames tzi hf htz1 htz2 hdf t dflt ht hdv lead ws hlead hws
+  · show SentenceThm "ampm_hms_sp"
+    simp only [SentenceThm]
+    exact fun cls _ yf year century o tznames tzi hf htz1 htz2 hdf t dflt ht hdv lead ws hlead hws =>
+      sentence_ampm_hms_sp cls yf year century o tznames tzi hf htz1 htz2 hdf t dflt ht hdv lead ws hlead hws
+  · show SentenceThm "dd-Mon-Y_hm"
+    simp only [SentenceThm]
+    exact fun cls _ yf year century o tznames tzi hf htz1 htz2  t dflt ht hdv lead ws hlead hws =>
+      sentence_dd_Mon_Y_hm cls yf year century o tznames tzi hf htz1 htz2  t dflt ht hdv lead ws hlead hws
+  · show SentenceThm "d_Month_Y_hm"
+    simp only [SentenceThm]
+    exact fun cls _ yf year century o tznames tzi hf htz1 htz2 hyf t dflt ht hdv hy lead ws hlead hws =>
+      sentence_d_Month_Y_hm cls yf year century o tznames tzi hf htz1 htz2 hyf t dflt ht hdv hy lead ws hlead hws
+  · show SentenceThm "Mon_d_Y_hms"
+    simp only [SentenceThm]
+    exact fun cls _ yf year century o tznames tzi hf htz1 htz2  t dflt ht hdv hy lead ws hlead hws =>
+      sentence_Mon_d_Y_hms cls yf year century o tznames tzi hf htz1 htz2  t dflt ht hdv hy lead ws hlead hws
+  · show SentenceThm "compact_T_s"
+    simp only [SentenceThm]
+    exact fun cls _ yf year century o tznames tzi hf htz1 htz2 hdf t dflt ht hdv lead ws hlead hws =>
+      sentence_compact_T_s cls yf year century o tznames tzi hf htz1 htz2 hdf t dflt ht hdv lead ws hlead hws
+  · show SentenceThm "compact_nosep_s"
+    simp only [SentenceThm]
+    exact fun cls _ yf year century o tznames tzi hf htz1 htz2 hdf t dflt ht hdv lead ws hlead hws =>
+      sentence_compact_nosep_s cls yf year century o tznames tzi hf htz1 htz2 hdf t dflt ht hdv lead ws hlead hws
+  · show SentenceThm "compact_T_min"
+    simp only [SentenceThm]
+    exact fun cls _ yf year century o tznames tzi hf htz1 htz2 hdf t dflt ht hdv lead ws hlead hws =>
+      sentence_compact_T_min cls yf year century o tznames tzi hf htz1 htz2 hdf t dflt ht hdv lead ws hlead hws
+  · show SentenceThm "compact_nosep_min"
+    simp only [SentenceThm]
+    exact fun cls _ yf year century o tznames tzi hf htz1 htz2 hdf t dflt ht hdv lead ws hlead hws =>
+      sentence_compact_nosep_min cls yf year century o tznames tzi hf htz1 htz2 hdf t dflt ht hdv lead ws hlead hws
+  · show SentenceThm "iso_sp_s"
+    simp only [SentenceThm]
+    exact fun cls _ yf year century o tznames tzi hf htz1 htz2 hdf t dflt ht hdv lead ws hlead hws =>
+      sentence_iso_sp_s cls yf year century o tznames tzi hf htz1 htz2 hdf t dflt ht hdv lead ws hlead hws
+  · show SentenceThm "iso_T_s"
+    simp only [SentenceThm]
+    exact fun cls _ yf year century o tznames tzi hf htz1 htz2 hdf t dflt ht hdv lead ws hlead hws =>
+      sentence_iso_T_s cls yf year century o tznames tzi hf htz1 htz2 hdf t dflt ht hdv lead ws hlead hws
+  · show SentenceThm "iso_sp_min"
+    simp only [SentenceThm]
+    exact fun cls _ yf year century o tznames tzi hf htz1 htz2 hdf t dflt ht hdv lead ws hlead hws =>
+      sentence_iso_sp_min cls yf year century o tznames tzi hf htz1 htz2 hdf t dflt ht hdv lead ws hlead hws
+  · show SentenceThm "iso_T_min"
+    simp only [SentenceThm]
+    exact fun cls _ yf year century o tznames tzi hf htz1 htz2 hdf t dflt ht hdv lead ws hlead hws =>
+      sentence_iso_T_min cls yf year century o tznames tzi hf htz1 htz2 hdf t dflt ht hdv lead ws hlead hws
+-- END GENERATED SENTENCE INDEX
 
 end C15
